@@ -65,9 +65,10 @@ type Cfg struct {
 	LogBuf                                                            int
 	TanLogSize                                                        int
 	OpsPerClient                                                      int
-	GroupSplit                                                        int // percent of partitions that isolate a pair of hosts from all others
-	MemberBias                                                        int // 0 any membership operation, 1 mostly non-voting adds, 2 mostly witness adds
-	ClientRate                                                        int // relative rate of client actions (10 = as likely as 1/8 of pending work)
+	GroupSplit                                                        int  // percent of partitions that isolate a pair of hosts from all others
+	HoldCut                                                           bool // cut links hold their frames until they heal (delay) instead of dropping them
+	MemberBias                                                        int  // 0 any membership operation, 1 mostly non-voting adds, 2 mostly witness adds
+	ClientRate                                                        int  // relative rate of client actions (10 = as likely as 1/8 of pending work)
 	Pad                                                               int
 }
 
@@ -194,6 +195,7 @@ func drawCfg(ctx *runner.Ctx) Cfg {
 	c.ClientRate = p("clientrate", pick(s, 10, 3, 30))
 	c.GroupSplit = p("groupsplit", pick(s, 0, 0, 30))
 	c.MemberBias = p("memberbias", 0)
+	c.HoldCut = p("holdcut", pick(s, 0, 0, 1)) == 1
 	c.Pad = p("pad", pick(s, 0, 0, 40, 300))
 	if c.Hosts < 1 {
 		c.Hosts = 1
@@ -750,6 +752,11 @@ func (s *Sim) options(tickers bool) []option {
 		if to := s.hosts[k.to]; to.up && to.busy != nil && to.busy[laneOwner(k)] != nil {
 			continue
 		}
+		if s.cfg.HoldCut && !k.chunk && s.net.cut[k.from][k.to] && len(s.net.lanes[k].frames) < 300 {
+			// a partition that delays instead of losing: what was in flight, and
+			// what is sent meanwhile, arrives (late) when the link heals
+			continue
+		}
 		opts = append(opts, option{kind: 2, lane: k})
 	}
 	for _, c := range s.clients {
@@ -924,6 +931,9 @@ func (s *Sim) maybeFaults() {
 			s.net.push(k, frame{data: f.data, typ: f.typ})
 			s.ctx.Count("fault.dup", 1)
 			s.orc.dupFired++
+			if f.typ == pb.ReadIndex {
+				s.orc.dupReadIndex++
+			}
 			s.ctx.Ev("dup:"+f.typ.String(), uint64(k.from), uint64(k.to))
 		}
 	}
